@@ -299,11 +299,25 @@ def family_nesting(data):
     t = build(data)
     if t is not None:
         # put deeply nested command sequences where a sequence is expected: every wrap node inside the manifest
-        wraps = [p for p in paths(t) if _at(t, p).kind == "wrap"]
+        wraps = sequence_paths(t) or [p for p in paths(t) if _at(t, p).kind == "wrap"]
         for p in wraps[:12]:
             for how in ("run", "try"):
                 for d in (1, 5, 20, 40, 80, 160):
                     out.append({"k": "nest_seq", "path": list(p), "how": how, "depth": d})
+    return out
+
+
+def sequence_paths(t):
+    """Paths of bstr-wrapped nodes that hold a command sequence (array of command id / argument pairs)."""
+    out = []
+    for p in paths(t):
+        n = _at(t, p)
+        if n.kind != "wrap" or n.children[0].kind != "arr":
+            continue
+        kids = n.children[0].children
+        if len(kids) >= 2 and len(kids) % 2 == 0 and all(
+                k.kind == "leaf" and len(k.raw) <= 2 and (k.raw[0] >> 5) == 0 for k in kids[0::2]):
+            out.append(p)
     return out
 
 
